@@ -1,5 +1,6 @@
 -- expect: (4, 6)	(-2, -2)	(-1, -2)
--- expect: 11	(2, 4)	(2, 4)	(1.5, 2)
+-- expect[jit]: 11	(2, 4)	(2, 4)	(1.5, 2)
+-- expect[5.3]: 11	(2, 4)	(2, 4)	(1.5, 2.0)
 -- expect: mod	pow	pow
 -- expect: (1, 2)
 -- expect: (1, 2)	(3, 4)	1
